@@ -321,3 +321,34 @@ reg('C15', module='c15', level='fault_enumeration',
     require={'quick': {'failures_injected': 2000, 'probes_compared': 10000},
              'thorough': {'failures_injected': 50000,
                           'probes_compared': 300000}})
+
+reg('C16', module='c16', level='exploration',
+    technique=('runtime monitoring: SmtLibScript.get_last_formula and '
+               'IncrementalTrackingSolver.assertions observed after every '
+               'step of enumerated command sequences against an executable '
+               'reference model of the SMT-LIB assertion stack'),
+    rule=('all legal sequences up to length 5 (quick) / 6 (thorough) over 15 '
+          'script commands (assert, assert-soft with ids/weights, push/pop '
+          '0..2, reset-assertions, check-sat, objectives) and up to length '
+          '5 / 6 over 14 solver calls (add_assertion, push/pop 0..2, '
+          'reset_assertions, solve, solve under literal / non-literal '
+          'assumptions, is_sat, is_valid, is_unsat), longer ones sampled; '
+          'every assertion uses a unique symbol so that the live set is '
+          'unambiguous; distinct = the sequence'),
+    level_text=('the bounded space of legal command sequences is enumerated '
+                'completely (exhaustive up to the stated length) and the '
+                'reported assertions/goals are compared by object identity '
+                'with a 30-line reference stack after every step; the solver '
+                'side runs pySMT\'s own IncrementalTrackingSolver '
+                'book-keeping over a brute-force back-end.'),
+    level_note=('trusts vf/c16.RefStack; solver back-end is vf/brutesolver.py '
+                '(only the documented proxy methods)'),
+    exhaustive={'quick': True, 'thorough': True},
+    assumptions=['objectives and soft assertions are scoped by push/pop and '
+                 'cleared by reset-assertions (assertion-stack semantics)'],
+    require={'quick': {'script_compared': 200000,
+                       'script_parsed_compared': 1000,
+                       'solver_steps_compared': 50000,
+                       'verdicts_compared': 9},
+             'thorough': {'script_compared': 5000000,
+                          'solver_steps_compared': 5000000}})
